@@ -44,6 +44,7 @@ def body(ck, F, cfg):
     ck.fn(H.P_PRV + "prove_and_return_transcript")
     PR.check_ipp_args(ck, F, pv)
     PR.check_t(ck, F, pv)
+    PR.completeness_identities(ck, F, pv)
     exp_iter_rule(ck, F)
     ck.sample({"sink": "A_I1", "value": repr(pv.sinks["A_I1"])})
     ck.sample({"sink": "ipp.H_factors", "value": __import__("rules.alg", fromlist=["show"]).show(pv.ipp["H_factors"]) if pv.ipp else None})
@@ -84,7 +85,7 @@ def run(tier):
         "l(x)/r(x) padded to N, T_k = coefficient k of <l(x),r(x)> (closed rule, so the table cannot be silently wrong), t_x, blinding synthesis, "
         "Q, factor vectors. The two hand-written flattening twins are summarised per Variable variant and must agree with the reference weights. "
         "Completeness of the reference protocol is the paper's theorem.",
-        rule_text="R01.1 sink normal forms = reference; R01.2 twin flatten summaries; R01.3 padding/size agreement; (R01.4 = C16, C17 by reference)",
+        rule_text="R01.1 sink normal forms = reference; R01.2 twin flatten summaries; R01.3 padding/size agreement; R01.4 = C16, C17 rules; R01.5 completeness identities: extracted prover substituted into extracted verifier (mod folding theorem and constraint satisfaction)",
         not_decided=["the completeness theorem itself", "that arkworks msm/mul_bigint/rand implement the algebra"],
         assumptions=["reference formulas in rules/prover_ref.py (dalek notes r1cs_proof)"],
     )
